@@ -53,6 +53,13 @@ type apiCall struct {
 	f    func(d []byte, nb, fb, lb *rjson.Buffer, vr *rjson.ValueReader) (p int, err error, hasP bool)
 }
 
+var (
+	primeArr    = []byte(`[1,"two",[3],{"four":4},5,6,7,8,9]`)
+	primeObj    = []byte(`{"a":1,"b":[2],"c":{"d":3},"e":"f","g":null}`)
+	primeBad    = []byte(`{"a":1,"b":[1,2,{"c":tru`)
+	primeBadArr = []byte(`[1,2,3,`)
+)
+
 func bufOf(i int, fb, lb *rjson.Buffer) *rjson.Buffer {
 	switch i % 3 {
 	case 0:
@@ -105,6 +112,29 @@ var allAPI = func() []apiCall {
 		return p, e, true
 	})
 	add("ValueReader.ReadArray", func(d []byte, nb, fb, lb *rjson.Buffer, vr *rjson.ValueReader) (int, error, bool) {
+		_, p, e := vr.ReadArray(d)
+		return p, e, true
+	})
+	// a reader primed by a successful, non-empty read, or by a failed one, right before the call
+	// (size hints and partial state carried over; seeded changes C10r6-m2 / C15r6-m1: a hint clamped
+	// to -1 for empty input)
+	add("ValueReader.ReadArray(right after a non-empty array)", func(d []byte, nb, fb, lb *rjson.Buffer, vr *rjson.ValueReader) (int, error, bool) {
+		vr.ReadArray(primeArr)
+		_, p, e := vr.ReadArray(d)
+		return p, e, true
+	})
+	add("ValueReader.ReadObject(right after a non-empty object)", func(d []byte, nb, fb, lb *rjson.Buffer, vr *rjson.ValueReader) (int, error, bool) {
+		vr.ReadObject(primeObj)
+		_, p, e := vr.ReadObject(d)
+		return p, e, true
+	})
+	add("ValueReader.ReadValue(right after a failed read)", func(d []byte, nb, fb, lb *rjson.Buffer, vr *rjson.ValueReader) (int, error, bool) {
+		vr.ReadValue(primeBad)
+		_, p, e := vr.ReadValue(d)
+		return p, e, true
+	})
+	add("ValueReader.ReadArray(right after a failed array)", func(d []byte, nb, fb, lb *rjson.Buffer, vr *rjson.ValueReader) (int, error, bool) {
+		vr.ReadArray(primeBadArr)
 		_, p, e := vr.ReadArray(d)
 		return p, e, true
 	})
